@@ -11,6 +11,26 @@ CRATES = ['tensor_store', 'relational_engine', 'graph_engine', 'vector_engine', 
           'tensor_cache', 'tensor_vault', 'tensor_unified', 'tensor_chain']
 
 
+TSF = 'tensor_store::TensorStore.'
+
+
+def _store_receiver_fields(f, defs, only_mut=True):
+    """like _receiver_fields, for the fields of TensorStore itself (e.g. the Bloom filter), `router` excluded"""
+    out = {}
+    for c in A.calls(f):
+        if not c.args or c.args[0][0] == 'k':
+            continue
+        fs = A.place_fields(c.args[0][1])
+        if not fs:
+            fs, _ = A.origin_fields(f, c.args[0][1][0], defs)
+        for x in fs:
+            if x.startswith(TSF) and x != TSF + 'router':
+                if only_mut and READONLY.search(c.resolved):
+                    continue
+                out.setdefault(x[len(TSF):], []).append(c)
+    return out
+
+
 def _receiver_fields(f, defs, only_mut=True):
     out = {}
     for c in A.calls(f):
@@ -44,7 +64,16 @@ def r08a(ctx, rep):
     rep.floor('R08a', 'slab fields cleared by SlabRouter::clear', len(cleared), 4)
     # restore path after the clear
     rd = A.Defs(rest)
-    cl = A.calls_to(rest, SR + 'clear')
+    cl = A.calls_to(rest, SR + 'clear') + A.calls_to(rest, 'tensor_store::TensorStore::clear')
+    cg0 = ctx.callgraph(['tensor_store'])
+    store_cleared = set()
+    for c in cl:
+        for n in cg0.reach([c.resolved]):
+            g = ts.fns.get(n)
+            if g is not None and n.startswith('tensor_store::TensorStore::'):
+                for fld, cs in _store_receiver_fields(g, A.Defs(g)).items():
+                    if any(x.resolved.endswith('::clear') for x in cs):
+                        store_cleared.add(fld)
     if not cl:
         rep.notes.append('R08a: restore_from_bytes no longer clears the live router; the rule checks only what is cleared on this path')
         rep.holds('R08a', rest, 'no clear', 'nothing is wiped')
@@ -71,7 +100,26 @@ def r08a(ctx, rep):
     for w in A.field_writes(rest):
         if w[2].startswith(SRF):
             refilled.add(w[2][len(SRF):])
-    rep.notes.append('R08a: cleared=%s refilled=%s via %s' % (sorted(cleared), sorted(refilled), sorted(set(router_methods))))
+    # store-level state (e.g. the Bloom filter): refilled only by TensorStore methods called after the clear
+    store_refilled = set()
+    for c in A.calls(rest):
+        if c.bb in R and c.resolved.startswith('tensor_store::TensorStore::') and not c.resolved.endswith('::clear'):
+            for n in cg0.reach([c.resolved]):
+                g = ts.fns.get(n)
+                if g is not None and n.startswith('tensor_store::TensorStore::'):
+                    store_refilled |= set(_store_receiver_fields(g, A.Defs(g)).keys())
+    for fld in sorted(store_cleared):
+        readers = sorted(n for n, g in ts.fns.items() if n.startswith('tensor_store::TensorStore::') and not n.endswith('::clear')
+                         and fld in _store_receiver_fields(g, A.Defs(g), only_mut=False))
+        if fld in store_refilled:
+            rep.holds('R08a', rest, 'store.' + fld, 'cleared and refilled')
+        elif readers:
+            rep.violation('R08a', rest, 'not-refilled-store-' + fld, rest.loc(cl[0].line),
+                          'rollback clears TensorStore.%s and copies the image back through %s, which never writes it, while %s consult it: after '
+                          'ROLLBACK TO keys that scan() lists are answered NotFound' % (fld, ', '.join(lib.short(m) for m in sorted(set(router_methods))) or 'the router',
+                                                                                   ', '.join(lib.short(x) for x in readers[:3])))
+    rep.notes.append('R08a: cleared=%s refilled=%s via %s; store-level cleared=%s refilled=%s' % (
+        sorted(cleared), sorted(refilled), sorted(set(router_methods)), sorted(store_cleared), sorted(store_refilled)))
     # who else writes through the field
     users = {}
     for cn in CRATES:
